@@ -243,6 +243,13 @@ func (x *Exec) execAlloc(p *Path, v *ssa.Alloc) SV {
 	default:
 		if _, isMap := et.Underlying().(*types.Map); isMap {
 			x.store1(p, "CInt", c, "0")
+		} else if isSyncType(et, "WaitGroup") {
+			l.Elem = types.Typ[types.Int]
+			x.store1(p, "CInt", c, "0")
+		} else if isSyncType(et, "Mutex") {
+			l.Elem = types.Typ[types.Bool]
+			x.store1(p, "CBool", c, "false")
+			p.mutexes = append(p.mutexes, c)
 		} else if isBuilder(et) {
 			l.Kind = "builder"
 			x.store1(p, "CStr", c, "str_empty")
@@ -251,6 +258,11 @@ func (x *Exec) execAlloc(p *Path, v *ssa.Alloc) SV {
 		}
 	}
 	return SV{K: KLoc, Loc: l}
+}
+
+func isSyncType(t types.Type, name string) bool {
+	n, ok := t.(*types.Named)
+	return ok && n.Obj().Name() == name && n.Obj().Pkg() != nil && n.Obj().Pkg().Path() == "sync"
 }
 
 func isBuilder(t types.Type) bool {
@@ -297,6 +309,10 @@ func (x *Exec) load(p *Path, l *Loc) SV {
 		return unwrapElem(l.Elem, fmt.Sprintf("(select (select (Mem %s) %s) %s)", H, l.Arr, l.Idx))
 	case "cell", "builder":
 		return x.readCell(H, l)
+	case "opaque":
+		if sv, ok := p.cellSV[l.Cell]; ok {
+			return sv
+		}
 	}
 	return SV{K: KOpaque}
 }
@@ -391,7 +407,10 @@ func (x *Exec) execStore(p *Path, v *ssa.Store) bool {
 		x.errorf("%s: store to a scalar wrapper field (wrappers are modelled as immutable) at %s", x.cur.ct.Func, x.pos(v))
 		return false
 	default:
-		// opaque cells (WaitGroup, Mutex ...) carry no modelled content
+		// cells of unmodelled types: remember function values path-locally
+		if val.K == KFunc {
+			p.cellSV[l.Cell] = val
+		}
 	}
 	return true
 }
@@ -798,11 +817,24 @@ func (x *Exec) execNext(p *Path, v *ssa.Next) bool {
 	return true
 }
 
+// execGo: `go f(args)`. The body of the goroutine is executed at the spawn point (sequentialisation).
+// This is sound for the final state because (checked) every access of a spawned body to state shared
+// with its siblings happens under one mutex and (argued, DESIGN I.9) the guarded effects of different
+// goroutines commute (distinct indices / keys); completion is enforced through the WaitGroup tokens:
+// Add mints, each spawned body must Done exactly once, Wait requires zero outstanding tokens, and every
+// return after a spawn must have passed Wait.
 func (x *Exec) execGo(p *Path, v *ssa.Go, work *[]*Path) bool {
-	x.errorf("%s: go statement not supported by the WP engine (see tokens checker)", x.cur.ct.Func)
-	return false
+	p.spawnedAny = true
+	n := len(p.frames)
+	x.assumptions["goroutines are executed at their spawn point (sequentialisation justified by the mutex bracket check, commuting effects and the WaitGroup token discipline); schedules are not explored"] = true
+	if !x.execCall(p, v, nil, work) {
+		return false
+	}
+	if len(p.frames) > n {
+		p.top().spawned = true
+	}
+	return true
 }
-
 // isDeadTemp: addr is &t.val where t = <call>.(*list) and neither the call result nor the asserted
 // pointer has any other use than this field read.
 func (x *Exec) isDeadTemp(addr ssa.Value) bool {
